@@ -258,6 +258,76 @@ def prop_first_target(caps, reqs, prefix_status, ops, with_filter, hashes) -> bo
         w.close()
 
 
+def prop_chain(nf, admits, cx, cy, rc, hashes) -> bool:
+    """DefaultScheduler.schedule with a CHAIN of nf matching filters (admits[k] = (x admitted by filter k,
+    y admitted by filter k)): the job is placed on the first declared target that survives EVERY filter of
+    the chain and has room; if no target survives, schedule raises and nothing is allocated."""
+    from harness import sched_lib as S
+    from streamflow.core.config import BindingConfig
+    from streamflow.core.deployment import FilterConfig, Target
+    from streamflow.core.exception import WorkflowExecutionException
+
+    k = 0
+    for i in range(1, 4):
+        if nf == i:
+            k = i
+    w = S.World("two_deployments", [(cx, 8, 8), (cy, 8, 8)])
+    order = ("x", "y")
+    job = "/s/0.0"
+    try:
+        with _HashPatch(), w.loop:
+            fcs = []
+            for i in range(k):
+                rules = []
+                # rules listed in reverse order of the declared targets: the output order must not follow them
+                if admits[i][1]:
+                    rules.append({"target": "y", "job": []})
+                if admits[i][0]:
+                    rules.append({"target": "x", "job": []})
+                fcs.append(FilterConfig(name="f" + str(i), type="matching", config={"filters": rules}))
+
+            def mk_binding(names):
+                ts = []
+                for i, n in enumerate(names):
+                    t = Target(deployment=w.deployments[n], locations=1, workdir="/wd")
+                    t._vh = hashes[i]
+                    ts.append(t)
+                return BindingConfig(targets=ts, filters=fcs)
+
+            w.mk_binding = mk_binding
+            w.reqs[job] = (rc, 1, 1)
+            w.binding[job] = order
+            survive = []
+            for n, idx in (("x", 0), ("y", 1)):
+                ok = True
+                for i in range(k):
+                    if not admits[i][idx]:
+                        ok = False
+                if ok:
+                    survive.append(n)
+            raised = False
+            try:
+                w.do(job, "S")
+            except WorkflowExecutionException:
+                raised = True
+            alloc = w.sched.job_allocations.get(job)
+            placed = alloc is not None and w.status(job) == S.FIREABLE and not w.waiting(job)
+            if not survive:
+                return raised and not placed
+            if raised:
+                return False
+            room = {"x": rc <= cx, "y": rc <= cy}
+            first = None
+            for n in survive:
+                if room[n] and first is None:
+                    first = n
+            if first is None:
+                return not placed  # waits for resources
+            return placed and alloc.target.deployment.name == first
+    finally:
+        w.close()
+
+
 # ---------------------------------------------------------------- obligations
 
 IMPORTS = "from harness.C13 import *"
@@ -410,6 +480,23 @@ def specs(tier: str):
     out.append(_sched_spec((RUNNING, RUNNING), 1, False, cond=900 if quick else 3000))
     out.append(_sched_spec((NONE, NONE), 1, True, cond=900 if quick else 3000))
     out.append(_sched_spec((RUNNING, NONE), 1, True, cond=900 if quick else 3000))
+    out.append(
+        Spec(
+            name="filter_chain",
+            group="(c) a job is placed only on targets that survive every filter of its binding, in order",
+            source=mk_source(
+                IMPORTS,
+                "nf: int, a0x: bool, a0y: bool, a1x: bool, a1y: bool, a2x: bool, a2y: bool, cx: int, cy: int, rc: int, h0: int, h1: int",
+                ["1 <= nf <= 3", "0 <= cx <= 8", "0 <= cy <= 8", "1 <= rc <= 8", "0 <= h0 <= 7", "0 <= h1 <= 7"],
+                "prop_chain(nf, [(a0x, a0y), (a1x, a1y), (a2x, a2y)], cx, cy, rc, [h0, h1])",
+            ),
+            cond=900 if quick else 3000,
+            path=90,
+            bound="real DefaultScheduler.schedule, two deployments x, y declared in this order, one job; a chain of 1..3 matching filters, each admitting x and/or y (or nothing) by a solver bool; core capacities 0..8 and requirement 1..8 symbolic; Target identity hashes symbolic",
+            symbolic="chain length, 6 admission bools, 3 ints, 2 hashes",
+            targets=T_B + ("streamflow.deployment.filter.matching.MatchingBindingFilter.get_targets",),
+        )
+    )
     if not quick:
         out.append(_sched_spec((RUNNING, RUNNING, NONE), 2, False, cond=3000))
         out.append(_sched_spec((RUNNING, NONE), 2, True, cond=3000))
